@@ -30,7 +30,7 @@ def dense_vec(rng, n):
 def gen(rng, index, tier):
     kind = rng.choice(["delta", "delta", "improve", "run", "run"])
     nmax = 7 if tier == "quick" else 10
-    raw, meta = lib.gen_dataset(rng, nmax=nmax, mmax=5, nmin=2 if kind != "run" else 1)
+    raw, meta = lib.gen_dataset(rng, nmax=nmax, mmax=5, nmin=2 if kind != "run" else 1, big=0.02)
     n = len(lib.dataset_elems(raw))
     sch = lib.gen_scheme(rng, family=rng.choice(["preset", "grid", "grid", "preset_mult", "zeroheavy", "fine", "fine", "cheap_ties", "large", "large"]))
     case = {"kind": kind, "dataset": raw, "scheme": sch, "meta": meta}
